@@ -30,6 +30,10 @@ func init() {
 
 var objKinds = []string{"cert", "cert-selfsigned", "csr", "cfca-csr", "crl"}
 
+// signer kinds by object number: SM2 (the branch the fork adds) most often, P-384 least
+// (a sweep under a P-384 issuer costs ten times the others).
+var signerCycle = []keyKind{kSM2, kP256, kRSA, kSM2, kEd25519, kSM2, kP384, kRSA, kP256, kSM2}
+
 // objects: one case = one created object (certificate, request, CFCA request or
 // revocation list) with the field/signature laws, the key-substitution law and the
 // complete single-byte alteration sweep over its DER.
@@ -47,9 +51,9 @@ func objects(x *mon.Ctx, sha1Mode bool) {
 	for i := 0; i < n; i++ {
 		kind := objKinds[i%len(objKinds)]
 		// signer kind cycles so that every (object kind, signer kind) pair is visited early
-		sk := keyKind((i / len(objKinds)) % int(nKinds))
+		sk := signerCycle[(i/len(objKinds))%len(signerCycle)]
 		if sha1Mode {
-			sk = []keyKind{kP256, kRSA, kP384}[(i/len(objKinds))%3]
+			sk = []keyKind{kP256, kRSA, kP256, kRSA, kP384}[(i/len(objKinds))%5]
 		}
 		if kind == "cfca-csr" && sha1Mode {
 			kind = "csr"
